@@ -6,6 +6,7 @@ The definitions proved about are the ones the driver executes against the C (Mod
 import Libvna.Props.C19Loop
 import Libvna.Model.ConvN
 import Mathlib.LinearAlgebra.Matrix.NonsingularInverse
+import Mathlib.Tactic.LinearCombination
 open Libvna Finset
 
 namespace Libvna.LULoop
@@ -263,5 +264,260 @@ theorem ztoyn_relation (mag : K → Float) (z : Array K) (n : Nat) (hn : 0 < n) 
     unfold ConvN.inv; rw [if_neg (by omega)]
   rw [e]
   exact inv_relation_of_inverse _ _ (minverse_inverts mag z n hs hp) v i
+
+
+/-! ### `_vnacommon_mrdivide` -/
+
+/-- `ri` lists 0..n-1 in some order -/
+structure IsPerm (ri : Array Nat) (n : Nat) : Prop where
+  lt : ∀ j, j < n → ri[j]! < n
+  inj : ∀ j k, j < n → k < n → ri[j]! = ri[k]! → j = k
+
+theorem mrFwd_spec (a b x : Array K) (ri : Array Nat) {m n i : Nat} (hs : x.size = m * n) (hi : i < m) (hri : IsPerm ri n)
+    (cnt : Nat) (hc : cnt ≤ n) :
+    (LA.mrFwd a b ri n i cnt x).size = m * n ∧
+    (∀ i' c, i' < m → c < n → ¬ (i' = i ∧ ∃ j, j < cnt ∧ c = ri[j]!) → X (LA.mrFwd a b ri n i cnt x) n i' c = X x n i' c) ∧
+    (∀ j, j < cnt → X (LA.mrFwd a b ri n i cnt x) n i ri[j]! =
+        (X b n i j - ∑ k ∈ range j, LA.get a n k j * X (LA.mrFwd a b ri n i cnt x) n i ri[k]!) / LA.get a n j j) := by
+  induction cnt with
+  | zero => exact ⟨hs, fun _ _ _ _ _ => rfl, fun j hj => absurd hj (Nat.not_lt_zero j)⟩
+  | succ c ih =>
+    obtain ⟨hs', hun, hup⟩ := ih (by omega)
+    have hcn : c < n := by omega
+    have hrc := hri.lt c hcn
+    simp only [LA.mrFwd]
+    refine ⟨by simp [hs'], ?_, ?_⟩
+    · intro i' cc hi' hccn hne
+      rw [X_set _ _ hs' hi hrc hccn]
+      have : ¬ (i = i' ∧ ri[c]! = cc) := by
+        rintro ⟨rfl, rfl⟩; exact hne ⟨rfl, c, Nat.lt_succ_self _, rfl⟩
+      rw [if_neg this]
+      exact hun i' cc hi' hccn (fun ⟨h1, j, hj, hjc⟩ => hne ⟨h1, j, by omega, hjc⟩)
+    · intro j hj
+      have hsum : ∀ j', j' ≤ c → ∀ v, ∑ k ∈ range j', LA.get a n k j' * X ((LA.mrFwd a b ri n i c x).set! (i * n + ri[c]!) v) n i ri[k]!
+            = ∑ k ∈ range j', LA.get a n k j' * X (LA.mrFwd a b ri n i c x) n i ri[k]! := by
+        intro j' hj' v
+        apply sum_congr rfl
+        intro k hk
+        have hk' : k < j' := mem_range.mp hk
+        rw [X_set _ _ hs' hi hrc (hri.lt k (by omega))]
+        have : ¬ (i = i ∧ ri[c]! = ri[k]!) := by
+          rintro ⟨_, e⟩; have := hri.inj c k hcn (by omega) e; omega
+        rw [if_neg this]
+      rw [X_set _ _ hs' hi hrc (hri.lt j (by omega))]
+      by_cases hjc : j = c
+      · subst hjc
+        rw [if_pos ⟨rfl, rfl⟩, hsum j (le_refl _), accSub_eq]
+        rfl
+      · have : ¬ (i = i ∧ ri[c]! = ri[j]!) := by
+          rintro ⟨_, e⟩; have := hri.inj c j hcn (by omega) e; omega
+        rw [if_neg this, hsum j (by omega)]
+        exact hup j (by omega)
+
+theorem mrBack_spec (a x : Array K) (ri : Array Nat) {m n i : Nat} (hs : x.size = m * n) (hi : i < m) (hri : IsPerm ri n)
+    (cnt : Nat) (hc : cnt ≤ n) :
+    (LA.mrBack a ri n i cnt x).size = m * n ∧
+    (∀ i' c, i' < m → c < n → ¬ (i' = i ∧ ∃ j, n - cnt ≤ j ∧ j < n ∧ c = ri[j]!) →
+        X (LA.mrBack a ri n i cnt x) n i' c = X x n i' c) ∧
+    (∀ j, n - cnt ≤ j → j < n → X (LA.mrBack a ri n i cnt x) n i ri[j]! =
+        X x n i ri[j]! - ∑ t ∈ range (n - (j + 1)), LA.get a n (j + 1 + t) j * X (LA.mrBack a ri n i cnt x) n i ri[j + 1 + t]!) := by
+  induction cnt with
+  | zero => exact ⟨hs, fun _ _ _ _ _ => rfl, fun j h1 h2 => by omega⟩
+  | succ c ih =>
+    obtain ⟨hs', hun, hup⟩ := ih (by omega)
+    have hr : n - 1 - c < n := by omega
+    have hrc := hri.lt _ hr
+    simp only [LA.mrBack]
+    refine ⟨by simp [hs'], ?_, ?_⟩
+    · intro i' cc hi' hccn hne
+      rw [X_set _ _ hs' hi hrc hccn]
+      have : ¬ (i = i' ∧ ri[n - 1 - c]! = cc) := by
+        rintro ⟨rfl, rfl⟩; exact hne ⟨rfl, n - 1 - c, by omega, hr, rfl⟩
+      rw [if_neg this]
+      exact hun i' cc hi' hccn (fun ⟨h1, j, hj1, hj2, hjc⟩ => hne ⟨h1, j, by omega, hj2, hjc⟩)
+    · intro j hj1 hj2
+      have hsum : ∀ j', n - 1 - c ≤ j' → j' < n → ∀ v,
+          ∑ t ∈ range (n - (j' + 1)), LA.get a n (j' + 1 + t) j' *
+              X ((LA.mrBack a ri n i c x).set! (i * n + ri[n - 1 - c]!) v) n i ri[j' + 1 + t]!
+            = ∑ t ∈ range (n - (j' + 1)), LA.get a n (j' + 1 + t) j' * X (LA.mrBack a ri n i c x) n i ri[j' + 1 + t]! := by
+        intro j' h1 h2 v
+        apply sum_congr rfl
+        intro t ht
+        have ht' := mem_range.mp ht
+        rw [X_set _ _ hs' hi hrc (hri.lt _ (by omega))]
+        have : ¬ (i = i ∧ ri[n - 1 - c]! = ri[j' + 1 + t]!) := by
+          rintro ⟨_, e⟩; have := hri.inj _ _ hr (by omega) e; omega
+        rw [if_neg this]
+      rw [X_set _ _ hs' hi hrc (hri.lt j hj2)]
+      by_cases hjc : j = n - 1 - c
+      · subst hjc
+        rw [if_pos ⟨rfl, rfl⟩, hsum _ (le_refl _) hr, accSub_eq]
+        have : X (LA.mrBack a ri n i c x) n i ri[n - 1 - c]! = X x n i ri[n - 1 - c]! :=
+          hun _ _ hi hrc (by rintro ⟨_, j, hj1', hj2', e⟩; have := hri.inj _ _ hr hj2' e; omega)
+        unfold X at this ⊢
+        rw [this]
+      · have : ¬ (i = i ∧ ri[n - 1 - c]! = ri[j]!) := by
+          rintro ⟨_, e⟩; have := hri.inj _ _ hr hj2 e; omega
+        rw [if_neg this, hsum j (by omega) hj2]
+        exact hup j (by omega) hj2
+
+/-- row i of x solves `x A = b_i` through the factors: the permuted view `w j = x[i][ri[j]]` satisfies the two row-vector recurrences -/
+def RowSolved (a b x : Array K) (ri : Array Nat) (n i : Nat) : Prop :=
+  ∃ y : Nat → K,
+    (∀ j, j < n → y j = (X b n i j - ∑ k ∈ range j, LA.get a n k j * y k) / LA.get a n j j) ∧
+    (∀ j, j < n → X x n i ri[j]! =
+        y j - ∑ t ∈ range (n - (j + 1)), LA.get a n (j + 1 + t) j * X x n i ri[j + 1 + t]!)
+
+theorem rowSolved_congr {a b x x' : Array K} {ri : Array Nat} {n i : Nat}
+    (h : RowSolved a b x ri n i) (he : ∀ c, c < n → X x' n i c = X x n i c) (hri : IsPerm ri n) : RowSolved a b x' ri n i := by
+  obtain ⟨y, hy, hx⟩ := h
+  refine ⟨y, hy, fun j hj => ?_⟩
+  rw [he _ (hri.lt j hj), hx j hj]
+  congr 1
+  apply sum_congr rfl
+  intro t ht
+  have := mem_range.mp ht
+  rw [he _ (hri.lt _ (by omega))]
+
+theorem mrRows_spec (a b x : Array K) (ri : Array Nat) {m n : Nat} (hs : x.size = m * n) (hri : IsPerm ri n)
+    (cnt : Nat) (hc : cnt ≤ m) :
+    (LA.mrRows a b ri n cnt x).size = m * n ∧
+    (∀ i c, i < m → c < n → cnt ≤ i → X (LA.mrRows a b ri n cnt x) n i c = X x n i c) ∧
+    (∀ i, i < cnt → RowSolved a b (LA.mrRows a b ri n cnt x) ri n i) := by
+  induction cnt with
+  | zero => exact ⟨hs, fun _ _ _ _ _ => rfl, fun i hi => absurd hi (Nat.not_lt_zero i)⟩
+  | succ i ih =>
+    obtain ⟨hs0, hun0, hsolved0⟩ := ih (by omega)
+    have hi : i < m := by omega
+    obtain ⟨hs1, hun1, hup1⟩ := mrFwd_spec a b (LA.mrRows a b ri n i x) ri hs0 hi hri n (le_refl _)
+    obtain ⟨hs2, hun2, hup2⟩ := mrBack_spec a (LA.mrFwd a b ri n i n (LA.mrRows a b ri n i x)) ri hs1 hi hri n (le_refl _)
+    simp only [LA.mrRows]
+    refine ⟨hs2, ?_, ?_⟩
+    · intro i' c hi' hcn hcc
+      rw [hun2 i' c hi' hcn (by rintro ⟨e, _⟩; omega), hun1 i' c hi' hcn (by rintro ⟨e, _⟩; omega), hun0 i' c hi' hcn (by omega)]
+    · intro i' hi'
+      by_cases e : i' = i
+      · subst e
+        refine ⟨fun j => X (LA.mrFwd a b ri n i' n (LA.mrRows a b ri n i' x)) n i' ri[j]!, ?_, ?_⟩
+        · intro j hj; exact hup1 j hj
+        · intro j hj; exact hup2 j (by omega) hj
+      · have hlt : i' < i := by omega
+        apply rowSolved_congr (hsolved0 i' hlt) _ hri
+        intro c hc
+        rw [hun2 i' c (by omega) hc (by rintro ⟨e', _⟩; omega), hun1 i' c (by omega) hc (by rintro ⟨e', _⟩; omega)]
+
+/-- row vector times an upper triangular matrix: `y_j U_jj = b_j − Σ_{k<j} y_k U_kj` ⇒ `y U = b` -/
+theorem rowvec_upper {n : Nat} (U : Matrix (Fin n) (Fin n) K) (b y : Fin n → K)
+    (hUl : ∀ i j, j < i → U i j = 0)
+    (hy : ∀ j, y j * U j j = b j - ∑ k, if k < j then y k * U k j else 0) :
+    Matrix.vecMul y U = b := by
+  ext j
+  simp only [Matrix.vecMul, dotProduct]
+  rw [Libvna.LU.sum_split3 (fun k => y k * U k j) j]
+  have hz : (∑ k, if j < k then y k * U k j else 0) = 0 := by
+    apply Finset.sum_eq_zero; intro k _
+    by_cases hk : j < k
+    · simp [hk, hUl k j hk]
+    · simp [hk]
+  rw [hz, add_zero, hy j]
+  ring
+
+/-- row vector times a unit lower triangular matrix: `w_j = y_j − Σ_{k>j} w_k L_kj` ⇒ `w L = y` -/
+theorem rowvec_unit_lower {n : Nat} (L : Matrix (Fin n) (Fin n) K) (y w : Fin n → K)
+    (hLd : ∀ i, L i i = 1) (hLu : ∀ i j, i < j → L i j = 0)
+    (hw : ∀ j, w j = y j - ∑ k, if j < k then w k * L k j else 0) :
+    Matrix.vecMul w L = y := by
+  ext j
+  simp only [Matrix.vecMul, dotProduct]
+  rw [Libvna.LU.sum_split3 (fun k => w k * L k j) j]
+  have hz : (∑ k, if k < j then w k * L k j else 0) = 0 := by
+    apply Finset.sum_eq_zero; intro k _
+    by_cases hk : k < j
+    · simp [hk, hLu k j hk]
+    · simp [hk]
+  rw [hz, zero_add, hLd, mul_one]
+  have := hw j
+  linear_combination this
+
+theorem isPerm_of_perm {ri : Array Nat} {n : Nat} (π : Equiv.Perm (Fin n))
+    (hπ : ∀ i : Fin n, ri[(i : Nat)]! = ((π i : Fin n) : Nat)) : IsPerm ri n := by
+  constructor
+  · intro j hj
+    have := hπ ⟨j, hj⟩
+    simp only at this
+    rw [this]; exact (π ⟨j, hj⟩).isLt
+  · intro j k hj hk e
+    have h1 := hπ ⟨j, hj⟩
+    have h2 := hπ ⟨k, hk⟩
+    simp only at h1 h2
+    rw [h1, h2] at e
+    have := π.injective (Fin.ext e)
+    exact Fin.mk.inj_iff.mp this
+
+/-- **a row that went through the two loops of `_vnacommon_mrdivide` solves `x A = b`** -/
+theorem rowSolved_solves (a0 a b x : Array K) (ri : Array Nat) {n i : Nat}
+    (hf : Lmat a n * Umat a n = Pmat a0 ri n) (hp : ∀ j, j < n → LA.get a n j j ≠ 0)
+    (π : Equiv.Perm (Fin n)) (hπ : ∀ j : Fin n, ri[(j : Nat)]! = ((π j : Fin n) : Nat))
+    (h : RowSolved a b x ri n i) (c : Fin n) :
+    ∑ r : Fin n, X x n i r * LA.get a0 n r c = X b n i c := by
+  obtain ⟨y, hy, hx⟩ := h
+  have hLd : ∀ j : Fin n, Lmat a n j j = 1 := by intro j; simp [Lmat]
+  have hLu : ∀ j k : Fin n, j < k → Lmat a n j k = 0 := by
+    intro j k hjk
+    have h1 : ¬ ((k : Nat) < j) := by have := Fin.lt_def.mp hjk; omega
+    have h2 : ¬ (k = j) := fun e => by subst e; exact absurd hjk (lt_irrefl _)
+    simp [Lmat, h1, h2]
+  have hUl : ∀ j k : Fin n, k < j → Umat a n j k = 0 := by
+    intro j k hkj
+    have h1 : ¬ ((j : Nat) ≤ k) := by have := Fin.lt_def.mp hkj; omega
+    simp [Umat, h1]
+  have h1 : Matrix.vecMul (fun j : Fin n => y j) (Umat a n) = fun j : Fin n => X b n i j := by
+    apply rowvec_upper _ _ _ hUl
+    intro j
+    have hpj := hp j j.isLt
+    have hU : Umat a n j j = LA.get a n j j := by simp [Umat]
+    rw [hU, hy j j.isLt, div_mul_cancel₀ _ hpj, sum_range_eq_fin (le_of_lt j.isLt) (fun k => LA.get a n k j * y k)]
+    congr 1
+    apply Finset.sum_congr rfl
+    intro k _
+    by_cases hk : (k : Nat) < j
+    · have hk' : k < j := Fin.lt_def.mpr hk
+      have hle : (k : Nat) ≤ j := by omega
+      simp [Umat, hk, hk', hle, mul_comm]
+    · have hk' : ¬ k < j := fun h => hk (Fin.lt_def.mp h)
+      simp [hk, hk']
+  have h2 : Matrix.vecMul (fun j : Fin n => X x n i ri[(j : Nat)]!) (Lmat a n) = fun j : Fin n => y j := by
+    apply rowvec_unit_lower _ _ _ hLd hLu
+    intro j
+    rw [hx j j.isLt, sum_above_eq_fin j.isLt (fun k => LA.get a n k j * X x n i ri[k]!)]
+    congr 1
+    apply Finset.sum_congr rfl
+    intro k _
+    by_cases hk : (j : Nat) < k
+    · have hk' : j < k := Fin.lt_def.mpr hk
+      simp [Lmat, hk, hk', mul_comm]
+    · have hk' : ¬ j < k := fun h => hk (Fin.lt_def.mp h)
+      simp [hk, hk']
+  have h3 : Matrix.vecMul (fun j : Fin n => X x n i ri[(j : Nat)]!) (Pmat a0 ri n) = fun j : Fin n => X b n i j := by
+    rw [← hf, ← Matrix.vecMul_vecMul, h2, h1]
+  have hc := congrFun h3 c
+  simp only [Matrix.vecMul, dotProduct, Pmat] at hc
+  rw [← hc]
+  -- reindex the sum over rows by the permutation
+  rw [← Equiv.sum_comp π (fun r : Fin n => X x n i r * LA.get a0 n r c)]
+  apply Finset.sum_congr rfl
+  intro k _
+  rw [hπ k]
+
+/-- **`_vnacommon_mrdivide` solves `X A = B`** (exact arithmetic, every m, n, every pivot choice; no zero pivot) -/
+theorem mrdivide_solves (mag : K → Float) (a0 b : Array K) (m n : Nat) (hs : a0.size = n * n)
+    (hp : ∀ i, i < n → LA.get (LA.lu mag a0 n).1 n i i ≠ 0) (i : Nat) (hi : i < m) (c : Fin n) :
+    ∑ r : Fin n, X (LA.mrdivide mag b a0 m n).1 n i r * LA.get a0 n r c = X b n i c := by
+  obtain ⟨_, π, hπ⟩ := lu_det mag a0 n hs hp
+  have hri := isPerm_of_perm π hπ
+  have hsz : (Array.replicate (m * n) (0 : K)).size = m * n := by simp
+  obtain ⟨_, _, hsolved⟩ := mrRows_spec (LA.lu mag a0 n).1 b (Array.replicate (m * n) (0 : K)) (LA.lu mag a0 n).2.1 hsz hri m (le_refl _)
+  exact rowSolved_solves a0 (LA.lu mag a0 n).1 b _ (LA.lu mag a0 n).2.1 (lu_factors mag a0 n hs hp) hp π hπ (hsolved i hi) c
+
 
 end Libvna.LULoop
